@@ -1,16 +1,24 @@
 """
-Stream `run`: generated projects through the REAL `runner.run_suites` under the recorder
-(`harness/run/observe.py`), replayed on the Lean run-level acceptor (`drivers/Run.lean`:
-scheduler M1 × task behaviours M5 over the session model M3 × writer M4 × grammar), and checked by the
-model-independent oracles of `harness/run/oracles.py`.  Shared by C01–C05, C07, C08, C11, C14.run, C15.run.
+Stream `run`: generated projects (harness/run/gen.py) built into REAL suites / fixtures (run/build.py), run by the real
+`runner.run_suites` under the recorder (run/observe.py); the observation {project, graph, trace, outcome, report} is
+replayed on the Lean run-level acceptor (`lean/drivers/Run.lean`: scheduler M1 × task behaviours M5 over the session
+model M3 × writer M4 × grammar — design.d/run-schema.md); the property oracles (run/oracles.py) are evaluated on the
+same observation and never consult the model.  Shared by C01–C05, C07, C08, C11 (C14.run, C15): a property module
+subclasses `RunStream` and picks profile / oracles / fault injection.
 """
 import common as C
 from gen import reports as R
 
+from run import gen as G
+from run import observe as O
+from run import oracles as X
+
+FAULT_TEXT = "backend boom é #42"
+
 
 def to_records(obs):
     """collapse the raw trace into the acceptor's records (see Model/RunAccept.lean `Rec`)"""
-    from run.observe import canon_for_model
+    canon_for_model = O.canon_for_model
     tr = obs["trace"]
     recs = []
     cur = []
@@ -93,41 +101,52 @@ def canon_report_for_model(rep):
 class RunStream(C.Stream):
     name = "run"
     profile = "basic"
-    oracles = ()              # names of functions in run.oracles taking (project, obs) -> list[Failure]
-    quick_cases = 120
-    thorough_cases = 2500
-    quick_seconds = 45
-    thorough_seconds = 500
+    oracles = ("C01",)            # names in run.oracles.ORACLES; "C05" = comparison with the 1-thread run
+    threads = (1, 2, 3, 8)
+    strategies = ("off", "fifo", "lifo", "random")
+    p_interrupt = 0.0             # probability of an injected keyboard interrupt
+    p_fault = 0.0                 # probability of a failing reporting backend
+    quick_cases = 60
+    thorough_cases = 600
+    quick_seconds = 40
+    thorough_seconds = 400
     chunk = 20
-    with_interrupts = False
-    with_faults = False
-    threads = (1, 1, 2, 3, 4, 8)
     corpus = []
 
     def gen(self, rng, i):
-        from run import gen as G
-        p = G.gen_project(rng, self.profile)
-        p["nb_threads"] = rng.choice(self.threads)
-        case = {"project": p, "strategy": rng.choice(["off", "fifo", "lifo", "random", "random"]),
-                "gate_seed": rng.randrange(1 << 30), "interrupt_at": None, "fault": None}
-        if self.with_interrupts and rng.random() < 0.6:
-            case["interrupt_at"] = ["get", rng.randint(1, 30)]
-        if self.with_faults and rng.random() < 0.8:
-            from run.observe import FAULT_CLASSES
-            case["fault"] = {"k": rng.randint(0, 60), "cls": rng.choice(FAULT_CLASSES), "text": "backend-boom-%d" % rng.randrange(1000)}
+        project = G.gen_project(rng, self.profile)
+        project["nb_threads"] = rng.choice(list(self.threads))
+        case = {"project": project, "strategy": rng.choice(list(self.strategies)), "gseed": rng.randrange(1 << 24),
+                "interrupt": None, "fault": None}
+        r = rng.random()
+        if r < self.p_interrupt:
+            if case["strategy"] != "off" and rng.random() < 0.6:
+                case["interrupt"] = ["quiescent", rng.randint(1, 6)]
+            else:
+                case["interrupt"] = ["get", rng.randint(1, 12)]
+        elif r < self.p_interrupt + self.p_fault:
+            case["fault"] = {"k": rng.randint(0, 40), "cls": rng.choice(O.FAULT_CLASSES), "text": FAULT_TEXT}
         return case
 
     def impl(self, case):
-        from run.observe import run_project
-        return run_project(case["project"], strategy=case["strategy"], gate_seed=case["gate_seed"],
-                           interrupt_at=case["interrupt_at"], backend_fault=case["fault"])
+        obs = O.run_project(case["project"], strategy=case["strategy"], gate_seed=case["gseed"],
+                            interrupt_at=case["interrupt"], backend_fault=case["fault"])
+        if ("C05" in self.oracles and not case["interrupt"] and not case["fault"]
+                and (case["project"]["nb_threads"] != 1 or case["strategy"] != "off")):
+            base = O.run_project(dict(case["project"], nb_threads=1), strategy="off")
+            obs["baseline"] = {k: base.get(k) for k in ("report", "report_view", "attachments", "outcome")}
+        return obs
 
     def oracle(self, case, obs):
-        from run import oracles as O
-        fails = []
+        view = X.View(case["project"], obs)
+        out = []
         for name in self.oracles:
-            fails += getattr(O, name)(case["project"], obs)
-        return fails
+            if name == "C05":
+                if obs.get("baseline"):
+                    out += X.c05_compare(case["project"], obs["baseline"], obs)
+            else:
+                out += X.ORACLES[name](case["project"], obs, view)
+        return out
 
     def request(self, case, obs):
         if obs.get("graph") is None:
@@ -146,7 +165,7 @@ class RunStream(C.Stream):
             return f"trace rejected at record {ans['accepted']}: {ans['reject']}"
         out = obs["outcome"]
         if out.get("hang"):
-            return None          # the oracle speaks about hangs
+            return None          # the oracles speak about hangs
         if ans["running_left"]:
             return "run ended but the model still has running tasks"
         if not ans["final"] and "returned" in out:
@@ -155,13 +174,16 @@ class RunStream(C.Stream):
         ires = [r[0] if r[0] != "none" else None for r in obs["results"]]
         if mres != ires:
             return f"task results differ: model {mres} impl {ires}"
-        if "returned" in out:
-            if ans["any_failed"] == out["returned"]:
-                return f"run returned {out['returned']} but the model's failure flag is {ans['any_failed']}"
-            if not ans["grammar_wellformed"]:
-                return "fired stream is not a well-formed stream of the C07 grammar (Lean acceptor)"
-            if case["project"]["nb_threads"] == 1 and not ans["grammar_sequential"]:
-                return "1 worker thread but the fired stream is not sequential (Lean acceptor)"
+        if "returned" in out and ans["any_failed"] == out["returned"]:
+            return f"run returned {out['returned']} but the model's failure flag is {ans['any_failed']}"
+        # the two statements of the C07 grammar (Lean acceptor, Python recogniser) must agree on the fired stream
+        fired = [r[2] for r in obs["trace"] if r[0] == "fire"]
+        py_ok = not X.recognise(fired, case["project"]["nb_threads"], complete="returned" in out)
+        lean_ok = ans["grammar_wellformed"] if "returned" in out else ans["grammar_parallel"]
+        if case["project"]["nb_threads"] == 1:
+            lean_ok = lean_ok and ans["grammar_sequential"]
+        if py_ok != lean_ok:
+            return f"the two statements of the stream grammar disagree on the fired stream: Lean {lean_ok}, Python {py_ok}"
         rep = canon_report_for_model(obs.get("report"))
         if rep is not None and "returned" in out:
             m = R.unwire(ans["report"])
@@ -173,41 +195,27 @@ class RunStream(C.Stream):
         return None
 
     def nontrivial(self, case, obs):
-        p = case["project"]
-        ntests = sum(1 for r in (obs.get("graph") or {"tasks": []})["tasks"] if r["kind"] == "test")
-        if ntests < 2:
-            return False
-        fin = [r[1] for r in obs["trace"] if r[0] == "finish"]
-        reordered = fin != sorted(fin)
-        return p["nb_threads"] == 1 or reordered or case["interrupt_at"] is not None or case["fault"] is not None
+        nt = sum(1 for _ in G.iter_tests(case["project"]))
+        bodies = sum(1 for r in obs["trace"] if r[0] == "user" and r[2][0] == "body" and r[3] == "enter")
+        return nt >= 2 and bodies >= 1 and obs["nb_events"] >= 8
 
     def features(self, case, obs):
-        p = case["project"]
-        f = [f"n={p['nb_threads']}", f"strategy={case['strategy']}", "outcome=" + ",".join(sorted(obs["outcome"].keys()))]
-        kinds = {r["kind"] for r in (obs.get("graph") or {"tasks": []})["tasks"]}
-        f += sorted("task=" + k for k in kinds)
-        if p["force_disabled"]:
-            f.append("force_disabled")
-        if p["stop_on_failure"]:
-            f.append("stop_on_failure")
-        if any(r[0] == "interrupt" for r in obs["trace"]):
-            f.append("interrupt-delivered")
-        if any(r[0] == "backend-raise" for r in obs["trace"]):
-            f.append("backend-raised")
-        fin = [r[1] for r in obs["trace"] if r[0] == "finish"]
-        if fin != sorted(fin):
-            f.append("completion-order-differs-from-list-order")
+        f = list(G.features(case["project"]))
+        f += ["n=%d" % case["project"]["nb_threads"], "strategy=" + case["strategy"], "outcome=" + sorted(obs["outcome"])[0]]
+        if case["interrupt"]:
+            f.append("interrupt-" + case["interrupt"][0] + ("-delivered" if any(r[0] == "interrupt" for r in obs["trace"]) else "-missed"))
+        if case["fault"]:
+            f.append("fault-" + case["fault"]["cls"] + ("-fired" if any(r[0] == "backend-raise" for r in obs["trace"]) else "-not-reached"))
         return f
 
     def shrink(self, case):
-        from run import gen as G
-        for p in G.shrink_project(case["project"]):
-            yield dict(case, project=p)
-        if case["interrupt_at"]:
-            yield dict(case, interrupt_at=None)
+        for q in G.shrink_project(case["project"]):
+            yield dict(case, project=q)
+        if case["interrupt"]:
+            yield dict(case, interrupt=None)
         if case["fault"]:
             yield dict(case, fault=None)
-        if case["project"]["nb_threads"] > 1:
-            yield dict(case, project=dict(case["project"], nb_threads=1))
+            if case["fault"]["k"] > 0:
+                yield dict(case, fault=dict(case["fault"], k=case["fault"]["k"] - 1))
         if case["strategy"] != "off":
             yield dict(case, strategy="off")
